@@ -48,67 +48,86 @@ class Write:
         if ty.kind != 'float': return False
         return s.op != '=' or s.rhs[0] in ('add', 'addslice', 'transadd')
 
-def rhs_text(ty, w, ext, bname):
-    """-> (declarations, C++ rhs expression, list of new buffers, list of rhs element values E in slice row-major order, either_div)"""
-    T = ty.cpp; m = prod(ext); k = w.rhs[0]
-    U = bname.upper()
+class Pool:
+    """all right-hand-side data of an entry lives in one 'in' buffer b, all destinations in one 'inout' buffer a
+    (few contract objects keep the DFCC instrumentation small); every operand is an exact sub-range at its own offset."""
+    def __init__(s): s.n = 0
+    def take(s, k):
+        o = s.n; s.n += k; return o
+
+def tdecl(ty, shape, var, ptr, kind='own'):
+    if kind == 'own':
+        # owning tensor filled by a plain element loop (the Tensor(const T*) constructor goes through std::copy -> memmove with a
+        # length that is not a constant on pipeline P0; CBMC's byte-level memmove model is slow and imprecise for offset sources)
+        return 'Tensor<%s,%s> %s; for (int i_ = 0; i_ < %d; ++i_) %s.data()[i_] = (%s)[i_];' % (ty.cpp, dims(shape), var, prod(shape), var, ptr)
+    return 'TensorMap<%s,%s> %s(const_cast<%s*>(%s));' % (ty.cpp, dims(shape), var, ty.cpp, ptr)
+
+def rhs_text(ty, w, ext, var, pool, b):
+    """-> (declarations, C++ rhs expression, list of rhs element values E in slice row-major order)"""
+    m = prod(ext); k = w.rhs[0]
+    def operand(shape, v, kind='own'):
+        o = pool.take(prod(shape))
+        return tdecl(ty, shape, v, 'b + %d' % o, kind), o
     if k == 'scalar':
-        b = Buf(bname, ty, 1, 'in')
-        return '', '%s[0]' % bname, [b], [E.inp(b, 0)] * m
+        o = pool.take(1)
+        return '', 'b[%d]' % o, [E.inp(b, o)] * m
     if k == 'lit':
-        return '', '%d' % w.rhs[1], [], [E.const(w.rhs[1], ty)] * m
+        v = E.const(w.rhs[1], ty) if ty.kind == 'int' else E.const(w.rhs[1], INT).cast(ty)   # int literal converted to T
+        return '', '%d' % w.rhs[1], [v] * m
     if k == 'tensor':
-        b = Buf(bname, ty, m, 'in')
-        decl = town(ty, ext, bname) if w.rhs[1] == 'own' else tmap(ty, ext, bname)
-        return decl, U, [b], [E.inp(b, j) for j in range(m)]
+        d, o = operand(ext, var, w.rhs[1])
+        return d, var, [E.inp(b, o + j) for j in range(m)]
     if k == 'slice':
         shape_b, axes_b = w.rhs[1], w.rhs[2]
         sb, extb = slice_sel(shape_b, axes_b)
         assert sb is not None and tuple(extb) == tuple(ext), (ext, extb, slice_cpp(axes_b))
-        b = Buf(bname, ty, prod(shape_b), 'in')
-        return town(ty, shape_b, bname), '%s(%s)' % (U, slice_cpp(axes_b)), [b], [E.inp(b, p) for (_, p) in slice_elems(shape_b, sb)]
+        d, o = operand(shape_b, var)
+        return d, '%s(%s)' % (var, slice_cpp(axes_b)), [E.inp(b, o + p) for (_, p) in slice_elems(shape_b, sb)]
     if k == 'neg':
-        b = Buf(bname, ty, m, 'in')
-        return town(ty, ext, bname), '-%s' % U, [b], [-E.inp(b, j) for j in range(m)]
+        d, o = operand(ext, var)
+        return d, '-%s' % var, [-E.inp(b, o + j) for j in range(m)]
     if k == 'add':
-        b = Buf(bname, ty, m, 'in'); c = Buf(bname + 'x', ty, m, 'in')
-        return town(ty, ext, bname) + ' ' + town(ty, ext, bname + 'x'), '%s + %sX' % (U, U), [b, c], [E.inp(b, j) + E.inp(c, j) for j in range(m)]
+        d, o = operand(ext, var); d2, o2 = operand(ext, var + 'x')
+        return d + ' ' + d2, '%s + %sx' % (var, var), [E.inp(b, o + j) + E.inp(b, o2 + j) for j in range(m)]
     if k == 'addslice':
         shape_b, axes_b = w.rhs[1], w.rhs[2]
         sb, extb = slice_sel(shape_b, axes_b)
         assert sb is not None and tuple(extb) == tuple(ext)
-        b = Buf(bname, ty, prod(shape_b), 'in'); c = Buf(bname + 'x', ty, m, 'in')
-        return (town(ty, shape_b, bname) + ' ' + town(ty, ext, bname + 'x'), '%s(%s) + %sX' % (U, slice_cpp(axes_b), U), [b, c],
-                [E.inp(b, p) + E.inp(c, j) for (j, p) in slice_elems(shape_b, sb)])
+        d, o = operand(shape_b, var); d2, o2 = operand(ext, var + 'x')
+        return (d + ' ' + d2, '%s(%s) + %sx' % (var, slice_cpp(axes_b), var),
+                [E.inp(b, o + p) + E.inp(b, o2 + j) for (j, p) in slice_elems(shape_b, sb)])
     if k in ('trans', 'transadd'):
         assert len(ext) == 2
         r, cc = ext
-        b = Buf(bname, ty, m, 'in')
-        vals = [E.inp(b, j * r + i) for i in range(r) for j in range(cc)]     # trans(B)(i,j) == B(j,i), B is cc x r
+        d, o = operand((cc, r), var)
+        vals = [E.inp(b, o + j * r + i) for i in range(r) for j in range(cc)]     # trans(B)(i,j) == B(j,i), B is cc x r
         if k == 'trans':
-            return town(ty, (cc, r), bname), 'trans(%s)' % U, [b], vals
-        c = Buf(bname + 'x', ty, m, 'in')
-        return (town(ty, (cc, r), bname) + ' ' + town(ty, ext, bname + 'x'), 'trans(%s) + %sX' % (U, U), [b, c],
-                [v + E.inp(c, j) for j, v in enumerate(vals)])
+            return d, 'trans(%s)' % var, vals
+        d2, o2 = operand(ext, var + 'x')
+        return d + ' ' + d2, 'trans(%s) + %sx' % (var, var), [v + E.inp(b, o2 + j) for j, v in enumerate(vals)]
     raise ValueError(k)
 
 def write_case(fam, ty, targets, cfg, ident):
-    """targets: list of (shape, dst, [Write,...]); dst in 'own' | 'map'.  Every target has its own inout buffer a<t>."""
-    bufs = []; L = []; ens = []
-    uf = False; nfl = 0
+    """targets: list of (shape, dst, [Write,...]); dst in 'own' | 'map'.  Target t occupies its own sub-range of the inout buffer a
+    (the neighbouring sub-ranges act as guard regions: every element of a has a clause)."""
+    pool = Pool()
+    ntot = sum(prod(shape) for (shape, _, _) in targets)
+    a = Buf('a', ty, ntot, 'inout')
+    b = Buf('b', ty, 1, 'in')       # size fixed below
+    L = []; ens = []
+    uf = False
+    aoff = 0
     for t, (shape, dst, writes) in enumerate(targets):
         n = prod(shape)
-        an = 'a%d' % t; AN = an.upper()
-        a = Buf(an, ty, n, 'inout'); bufs.append(a)
+        AN = 'A%d' % t
         L.append('    {')
-        L.append('      ' + (town(ty, shape, an) if dst == 'own' else tmap(ty, shape, an, const=False)))
-        state = [E.inp(a, p) for p in range(n)]
+        L.append('      ' + (tdecl(ty, shape, AN, 'a + %d' % aoff) if dst == 'own' else 'TensorMap<%s,%s> %s(a + %d);' % (ty.cpp, dims(shape), AN, aoff)))
+        state = [E.inp(a, aoff + p) for p in range(n)]
         either = {}
         for wi, w in enumerate(writes):
             sels, ext = slice_sel(shape, w.axes)
             assert sels is not None, 'inadmissible destination %s on %s' % (slice_cpp(w.axes), shape)
-            decl, rhs, nb, vals = rhs_text(ty, w, ext, 'b%d%s' % (t, 'pqr'[wi]))
-            bufs += nb
+            decl, rhs, vals = rhs_text(ty, w, ext, 'B%d%s' % (t, 'pqr'[wi]), pool, b)
             if decl: L.append('      ' + decl)
             L.append('      %s(%s) %s %s;' % (AN, slice_cpp(w.axes), w.op, rhs))
             if w.is_float_arith(ty): uf = True
@@ -117,22 +136,21 @@ def write_case(fam, ty, targets, cfg, ident):
                 if w.op == '/=' and w.rhs[0] == 'scalar' and ty.kind == 'float':
                     either[p] = (state[p] / vals[j], state[p] * (E.const(1, ty) / vals[j]))
                 state[p] = apply_op(w.op, state[p], vals[j])
-        if dst == 'own': L.append('      ' + copy_out(AN, an, n))
+        if dst == 'own': L.append('      for (int i_ = 0; i_ < %d; ++i_) a[%d + i_] = %s.data()[i_];' % (n, aoff, AN))
         L.append('    }')
         for p in range(n):
             if p in either:
                 x, y = either[p]
-                ens.append(('bool', '%s[%d] == old / s  or  old * (1/s)' % (an, p), E.post(a, p).same(x).bor(E.post(a, p).same(y))))
+                ens.append(('bool', 'a[%d] == old / s  or  old * (1/s)' % (aoff + p), E.post(a, aoff + p).same(x).bor(E.post(a, aoff + p).same(y))))
             else:
-                ens.append((a, p, state[p]))
-            nfl += state[p].count(('add', 'sub', 'mul', 'div')) if ty.kind == 'float' else 0
+                ens.append((a, aoff + p, state[p]))
+        aoff += n
+    b.n = max(pool.n, 1)
     mode = 'UF' if uf else 'SYM'
     if uf and cfg.pipe != 'P0': cfg = Cfg(cfg.isa, cfg.std, cfg.macros, 'P0', cfg.checks)
     shape0 = targets[0][0]
     cid = 'C05/%s/%s/%s/%s/%s' % (fam, ty.name, shape_tag(shape0), ident, cfg.tag())
-    c = Case(cid, 'C05', '\n'.join(L), bufs, ens, mode, cfg)
-    c.n_float_ops = nfl
-    return c
+    return Case(cid, 'C05', '\n'.join(L), [a, b], ens, mode, cfg)
 
 def elem_assign_case(ty, shape, cfg, dst, op):
     """A(i,j,..) op v with symbolic indices (negative ones counted from the end)."""
@@ -211,6 +229,43 @@ def dest_cases(fam, ty, shape, axes, dst, cfg, rng, rhs_kinds, fixed=None, ident
     return out
 
 RHS_ALL = ['scalar', 'lit', 'tensor', 'slice', 'neg', 'add', 'addslice', 'trans', 'transadd']
+RHS_1D = ['scalar', 'tensor', 'slice', 'add', 'lit', 'neg', 'addslice']
+
+def multi_dest_cases(fam, ty, shape, dests, dst, cfg, rng, rhs_cycle, per, ident, fixed=None):
+    """several destination slices of the same shape per entry, every operator on each (own sub-range of the inout buffer);
+    the right-hand-side kind rotates over the destinations."""
+    out = []
+    groups = chunked(dests, per)
+    for gi, grp in enumerate(groups):
+        targets = []
+        for di, axes in enumerate(grp):
+            sels, ext = slice_sel(shape, axes)
+            assert sels is not None, (shape, slice_cpp(axes))
+            cands = [rk for rk in rhs_cycle if accepted(dst, axes, rk) and not (rk in ('trans', 'transadd') and len(ext) != 2)]
+            rk = cands[(gi * per + di) % len(cands)]
+            for op in ops_for(ty, rk):
+                targets.append((shape, dst, [Write(axes, op, rhs_for(rng, rk, ext, fixed))]))
+        # UF cases: keep the number of uninterpreted applications small
+        if ty.kind == 'float':
+            for ci, ch in enumerate(chunked(targets, 8)):
+                out.append(write_case(fam, ty, ch, cfg, '%s%d.%d' % (ident, gi, ci)))
+        else:
+            out.append(write_case(fam, ty, targets, cfg, '%s%d' % (ident, gi)))
+    return out
+
+def random_write(rng, ty, shape, dst, kinds, allow_div=True):
+    while True:
+        axes = tuple(rand_axis(rng, kinds, N) for N in shape)
+        if all(a.is_integer() for a in axes): continue
+        sels, ext = slice_sel(shape, axes)
+        if sels is None: continue
+        break
+    cands = [rk for rk in RHS_ALL if accepted(dst, axes, rk) and not (rk in ('trans', 'transadd') and len(ext) != 2)]
+    rk = rng.choice(cands)
+    ops = ops_for(ty, rk)
+    if not allow_div: ops = [o for o in ops if not (o == '/=' and rk == 'scalar')]
+    fixed = all(a.is_fixed() for a in axes)
+    return Write(axes, rng.choice(ops), rhs_for(rng, rk, ext, None))
 
 def cases(tier, seed):
     rng = random.Random(seed)
@@ -219,13 +274,101 @@ def cases(tier, seed):
     TYPES = (INT, FLT, DBL)
     DST = ['own', 'map']
     for ni, isa in enumerate(isas(tier)):
-        cfg = Cfg(isa)
+      for std in (['c++14', 'c++17'] if thorough else ['c++14']):
+        cfg = Cfg(isa, std)
+        cfv = Cfg(isa, std, macros=(VEA,))
+        main = std == 'c++14'
+        # ---------------- scalar element assignment with symbolic indices ----------------
         for ti, ty in enumerate(TYPES):
-            out += dest_cases('seq1-own', ty, (8,), (seq(1, 7, 2),), 'own', cfg, rng, RHS_ALL)
-            out += dest_cases('seq2-map', ty, (4, 5), (seq(1, -1), seq(0, 5, 2)), 'map', cfg, rng, RHS_ALL)
-            out += dest_cases('fseq2-own', ty, (4, 5), (fseq(1, -1), fseq(0, 5, 2)), 'own', cfg, rng, RHS_ALL)
-            out.append(elem_assign_case(ty, (3, 5), cfg, 'map', '='))
-            out.append(elem_assign_case(ty, (3, 5), cfg, 'own', '+='))
+            for si, shape in enumerate([(7,), (3, 5), (2, 3, 4)] + ([(2, 3, 2, 3)] if thorough else [])):
+                for di, dst in enumerate(DST):
+                    ops = ['=', '+=', '-='] if ty.kind == 'int' else ['=', '+=', '*=', '/=']
+                    if not thorough: ops = [ops[(si + di + ti + ni + q) % len(ops)] for q in range(2)]
+                    for op in sorted(set(ops)):
+                        if thorough or (si + di + ti) % 2 == ni % 2 or op == '=':
+                            out.append(elem_assign_case(ty, shape, cfg, dst, op))
+        # ---------------- rank 1: every (first,last,step) triple as destination ----------------
+        for N in range(1, 9):
+            for kind in ('seq', 'fseq'):
+                if thorough:
+                    tys = TYPES if (main and N <= 6) else [TYPES[(N + ni) % 3]]
+                    if kind == 'fseq' and N > 6: continue
+                else:
+                    if N > (6 if kind == 'seq' else 4): continue
+                    tys = [TYPES[(N + ni + (kind == 'fseq')) % 3]]
+                for ty in tys:
+                    ti = TYPES.index(ty)
+                    ts = triples(N)
+                    for dst in (DST if (thorough and main) or N == 4 else ['own']):
+                        encs = ENCS if (thorough and main and dst == 'own') else None
+                        dests = []
+                        for n, (f, l, st) in enumerate(ts):
+                            for enc in (encs or [ENCS[(n + ti + N) % 3]]):
+                                dests.append((ax1(kind, f, l, st, N, enc),))
+                        out += multi_dest_cases('%s1-%s' % (kind, dst), ty, (N,), dests, dst, cfg, rng, RHS_1D, 4 if ty.kind == 'int' else 3, 'x', fixed=None)
+        for ti, ty in enumerate(TYPES):
+            V = vec_elems(isa, ty)
+            # ---------------- destinations whose last-axis extent straddles the SIMD width ----------------
+            es = sorted({V - 1, V, V + 1, 2 * V + 1} - {0}) if not thorough else sorted({V - 1, V, V + 1, 2 * V, 2 * V + 1} - {0})
+            sweep = vsweep(V, es=es, ss=(1, 2) if not thorough else (1, 2, 3), fs=(0, 1), both=False, rot=ti)
+            for n, (N, e, s, sl) in enumerate(sweep):
+                for ki, kind in enumerate(('seq', 'fseq')):
+                    fixed = kind == 'fseq'
+                    (f, l, enc) = sl[(n + ki) % len(sl)]
+                    last_ax = ax1(kind, f, l, s, N, enc)
+                    # rank 1
+                    for dst in (DST if thorough else [DST[(n + ki + ti) % 2]]):
+                        kinds = RHS_1D if thorough else [RHS_1D[(2 * n + q + ki + ti + ni) % len(RHS_1D)] for q in range(2)]
+                        out += dest_cases('%s1v-%s' % (kind, dst), ty, (N,), (last_ax,), dst, cfg, rng, kinds, ident='e%d.s%d' % (e, s))
+                        if s > 1 and dst == 'own' and e >= V:
+                            out += dest_cases('%s1v-%s' % (kind, dst), ty, (N,), (last_ax,), dst, cfv, rng, kinds[:1] if not thorough else kinds, ident='e%d.s%d' % (e, s))
+                    # rank 2
+                    if e > 17 and not thorough: continue
+                    lead = lead_axis(fixed, 3, n + ki + ti)
+                    axes2 = (lead, last_ax)
+                    for dst in (DST if thorough else [DST[(n + ki + ti + 1) % 2]]):
+                        kinds = RHS_ALL if thorough else [RHS_ALL[(2 * n + q + ki + ti + ni) % len(RHS_ALL)] for q in range(2)]
+                        out += dest_cases('%s2v-%s' % (kind, dst), ty, (3, N), axes2, dst, cfg, rng, kinds, ident='e%d.s%d' % (e, s))
+                        if s > 1 and dst == 'own' and e >= V:
+                            out += dest_cases('%s2v-%s' % (kind, dst), ty, (3, N), axes2, dst, cfv, rng, kinds[:1] if not thorough else kinds, ident='e%d.s%d' % (e, s))
+                    # rank 3 (generic nD views)
+                    if (e in (V, V + 1) and s == 1) or thorough:
+                        axes3 = (lead_axis(fixed, 3, n + ti + 1, allow_int=True), lead_axis(fixed, 3, n + 2 * ki + ni, allow_int=False), last_ax)
+                        dst = DST[(n + ki) % 2]
+                        kinds = [k for k in RHS_ALL if k not in ('trans', 'transadd')]
+                        kinds = kinds if thorough else [kinds[(n + ki + ti + ni) % len(kinds)]]
+                        out += dest_cases('%sNv-%s' % (kind, dst), ty, (3, 3, N), axes3, dst, cfg, rng, kinds, ident='e%d.s%d' % (e, s))
+            # ---------------- rank 2: covering set of (triple x triple) destinations ----------------
+            shape = (4, 5)
+            pairs = covering_pairs(shape[0], shape[1], rng)
+            if not thorough and ti != ni % 3: pairs = sample(rng, pairs, 12)
+            for ki, kind in enumerate(('seq', 'fseq')):
+                if kind == 'fseq' and not thorough: pairs = sample(rng, pairs, 12)
+                for dst in DST:
+                    if dst == 'map' and not thorough: sel = sample(rng, pairs, 6)
+                    else: sel = pairs
+                    dests = []
+                    for n, (t0, t1) in enumerate(sel):
+                        e0, e1 = ENC2[(n + ti) % len(ENC2)]
+                        dests.append((ax1(kind, t0[0], t0[1], t0[2], shape[0], e0), ax1(kind, t1[0], t1[1], t1[2], shape[1], e1)))
+                    out += multi_dest_cases('%s2-%s' % (kind, dst), ty, shape, dests, dst, cfg, rng, RHS_ALL, 3 if ty.kind == 'int' else 2, 'c')
+                    if dst == 'own':
+                        strided = [d for d in dests if d[1].st > 1][:6 if not thorough else 30]
+                        out += multi_dest_cases('%s2-%s' % (kind, dst), ty, shape, strided, dst, cfv, rng, RHS_ALL, 3 if ty.kind == 'int' else 2, 'c')
+            # ---------------- mixed argument kinds (rank 2 overloads, rank 3/4 generic views) ----------------
+            for shape in ([(4, 5), (2, 3, 4)] if not thorough else [(4, 5), (2, 3, 4), (2, 2, 3, 3)]):
+                for dst in DST:
+                    k = 4 if not thorough else 16
+                    for q in range(k):
+                        w = random_write(rng, ty, shape, dst, ['seq', 'fseq', 'all', 'int', 'last', 'first', 'fix', 'fixlast'])
+                        out.append(write_case('mixed%d-%s' % (len(shape), dst), ty, [(shape, dst, [w])], cfg, 'm%d.%s' % (q, w.tag())))
+            # ---------------- short histories: 2-3 writes to the same tensor in one entry ----------------
+            for shape in ([(9,), (4, 5), (2, 3, 4)]):
+                for dst in DST:
+                    for q in range(2 if not thorough else 8):
+                        nw = 2 + (q + ti) % 2
+                        ws = [random_write(rng, ty, shape, dst, ['seq', 'fseq', 'all'] if len(shape) < 3 else ['seq', 'fseq', 'all', 'int', 'fix'], allow_div=False) for _ in range(nw)]
+                        out.append(write_case('history%d-%s' % (len(shape), dst), ty, [(shape, dst, ws)], cfg, 'h%d.%s' % (q, '+'.join(OPNAME[w.op] + '.' + w.rhs[0] for w in ws))))
     seen = set(); res = []
     for c in out:
         if c.cid not in seen: seen.add(c.cid); res.append(c)
